@@ -13,9 +13,9 @@
 
     cmd 31 -- [mode; period; from_day; to_day; allow; sched; in_header; out_header; intra_header; assets; exchanges; holders;
                timestamp oracle; asset; counter; rows]        (from [in_header] on: the input of cmd 41)
-      mode 0 -> [Codec.enc_computed] of the ComputedData   (or the error code)
+      mode 0 -> [Codec.enc_computed] of the ComputedData   (or the error code; an overdraft without -n: [7; exchange; holder])
       mode 1 -> [Codec.enc_fracs] of the greedy specification ([Pipeline.spec_fractions_of]) on the same transaction sets *)
-From RP2V Require Import Base.Prelude Base.Time Base.Dec Model.Types Model.Generated Model.Txn Model.Matcher Model.Pipeline
+From RP2V Require Import Base.Prelude Base.Time Base.Dec Base.Sorting Model.Types Model.Generated Model.Txn Model.Matcher Model.Pipeline
   Model.Codec Model.Computed Model.Parser Model.TableOrderSpec Model.ReportInput Model.EndToEnd Model.EntryL1.
 Open Scope Z_scope.
 
@@ -26,6 +26,15 @@ Definition ods_computed (period from_day to_day : Z) (allow : bool) (sched : lis
   | Ok ra =>
     match compute period from_day to_day allow (pc_exchanges cfg) (pc_holders cfg) (ra_txs ra) (ra_fracs ra) with
     | Ok c => enc_computed period c
+    | Err ENegBalance =>
+      (* as command 30: the account whose balance goes negative first (the one the error message names) *)
+      let t := ra_txs ra in
+      let all := Sorting.sort_by t_us (map TIn (t_ins t) ++ map TIntra (t_intras t) ++ map TOut (t_outs t)) in
+      match first_negative allow {| bs_acq := []; bs_sent := []; bs_recv := []; bs_final := [] |}
+                           (take_until (fun x => local_day (t_ts x)) to_day all) with
+      | Some (ex, ho) => [7; ex; ho]
+      | None => [7; -1; -1]
+      end
     | Err e => [err_code e]
     end
   end.
